@@ -96,4 +96,564 @@ theorem xqCheckPassword_hold (c : Ctx) (cli : XqCli) (pw : Bytes) (hx : c.req.xq
     simp only [updReq, HoldInv, HoldPair]
     exact ⟨holdsAfterPassword_spec _ _ _ _ h1, h2⟩
 
+theorem xqMoreLoop_hold (pw : Bytes) (is : List Nat) (c : Ctx) (cli : XqCli) (h : HoldPair c.req cli) :
+    HoldPair (xqMoreLoop pw is c cli).1.req (xqMoreLoop pw is c cli).2 := by
+  induction is generalizing c cli with
+  | nil => exact h
+  | cons i is ih =>
+    unfold xqMoreLoop
+    split
+    · exact ih _ _ h
+    · split
+      · exact ih _ _ h
+      · split
+        · exact ih _ _ h
+        · apply ih
+          obtain ⟨h1, h2⟩ := h
+          unfold HoldPair
+          by_cases he : cli.ref.isEmpty = true
+          · simp only [he, if_true, updReq, Ctx.emit, maskAdd_ne_nil, Bool.false_eq_true, if_false]
+            refine ⟨h1, fun ht => ?_⟩
+            have := h2 ht
+            simp only [he, if_true] at this
+            show c.req.soft + 1 = 1
+            omega
+          · simp only [he, Bool.false_eq_true, if_false, Ctx.emit, maskAdd_ne_nil]
+            refine ⟨h1, fun ht => ?_⟩
+            have := h2 ht
+            simpa [he] using this
+
+theorem xqPassword_hold (c c' : Ctx) (pw : Option Bytes) (h : HoldInv c.req)
+    (hp : xqPassword c pw = .ok c') : HoldInv c'.req := by
+  unfold xqPassword at hp
+  split at hp
+  · simp only [pure, Except.pure, Except.ok.injEq] at hp; subst hp; exact h
+  · rename_i cli hx
+    split at hp
+    · split at hp
+      · cases hp
+      · simp only [pure, Except.pure, Except.ok.injEq] at hp; subst hp
+        exact xqCheckPassword_hold c cli _ hx h
+    · simp only [pure, Except.pure, Except.ok.injEq] at hp; subst hp
+      have hpair : HoldPair c.req cli := by unfold HoldInv at h; simpa [hx] using h
+      exact xqMoreLoop_hold _ (List.range c.svcs.length) c cli hpair
+
+/-! ### replies -/
+
+theorem mem_of_findRefSlot {svcs : List (Option Svc)} {cli : XqCli} {svc : Bytes} {i : Nat} {srv : Svc}
+    (h : findRefSlot svcs cli svc = some (i, srv)) : cli.ref.contains i = true := by
+  unfold findRefSlot at h
+  -- generalise the running index
+  suffices ∀ (k : Nat) (l : List (Option Svc)), findRefSlot.go cli svc k l = some (i, srv) → cli.ref.contains i = true from
+    this 0 svcs h
+  intro k l
+  induction l generalizing k with
+  | nil => intro h; simp [findRefSlot.go] at h
+  | cons s rest ih =>
+    intro h
+    unfold findRefSlot.go at h
+    split at h
+    · exact ih _ h
+    · rename_i hc
+      split at h
+      · split at h
+        · simp only [Option.some.injEq, Prod.mk.injEq] at h
+          obtain ⟨rfl, _⟩ := h
+          simpa using hc
+        · exact ih _ h
+      · exact ih _ h
+
+theorem ref_ne_nil_of_contains {m : List Nat} {i : Nat} (h : m.contains i = true) : m.isEmpty = false := by
+  cases m <;> simp_all
+
+/-- the common tail of the reply handler keeps the counters in step -/
+theorem xqFinishPre_hold (i : Nat) (c : Ctx) (cli : XqCli) (srv : Svc) (h : HoldPair c.req cli)
+    (hi : cli.ref.contains i = true) : HoldInv (xqFinishPre i c cli srv).req := by
+  obtain ⟨h1, h2⟩ := h
+  have hne := ref_ne_nil_of_contains hi
+  unfold xqFinishPre
+  dsimp only
+  split <;> split <;> simp only [updReq, unrefSvc_req, HoldInv, HoldPair] <;>
+    (refine ⟨h1, fun ht => ?_⟩
+     have := h2 ht
+     simp only [hne, Bool.false_eq_true, if_false] at this
+     simp_all)
+
+theorem setAccount_ne_nil (stamp : Bytes) (h : stamp.head? ≠ some 32) (hne : stamp ≠ []) :
+    (setAccount stamp).isEmpty = false := by
+  unfold setAccount
+  cases stamp with
+  | nil => exact absurd rfl hne
+  | cons x xs =>
+    have hx : (x != 32) = true := by
+      have : x ≠ 32 := fun e => h (by simp [e])
+      simp [this]
+    simp [List.takeWhile, hx]
+
+theorem okStamp_some {rep stamp : Bytes} (h : okStamp rep = some (some stamp)) :
+    stamp.head? ≠ some 32 ∧ stamp ≠ [] := by
+  unfold okStamp at h
+  by_cases hpre : (startsWith (b "OK") rep && (rep.length == 2 || rep.getD 2 0 == 32)) = true
+  · simp only [hpre, if_true] at h
+    by_cases hc : (rep.length == 2 || rep.length == 3 || rep.getD 3 0 == 32) = true
+    · simp only [hc, if_true] at h; cases h
+    · simp only [hc, Bool.false_eq_true, if_false, Option.some.injEq] at h
+      subst h
+      simp only [Bool.or_eq_true, beq_iff_eq, not_or] at hc
+      obtain ⟨⟨hl2, hl3⟩, h3⟩ := hc
+      have hge : 2 ≤ rep.length := by
+        simp only [Bool.and_eq_true] at hpre
+        have h0 := hpre.1
+        unfold startsWith at h0
+        have hb : b "OK" = [79, 75] := by decide
+        rw [hb] at h0
+        have h1 : rep.take 2 = [79, 75] := by simpa using h0
+        have h2 := congrArg List.length h1
+        simp [List.length_take] at h2
+        omega
+      have hlen : 3 < rep.length := by omega
+      constructor
+      · intro hh
+        apply h3
+        rw [List.head?_drop] at hh
+        simp [List.getD_eq_getElem?_getD, hh]
+      · intro hn
+        have := congrArg List.length hn
+        simp [List.length_drop] at this
+        omega
+  · simp only [hpre, Bool.false_eq_true, if_false] at h; cases h
+
+/-- `OK <account>` from a login-capable service keeps `holds` in step -/
+theorem xqVouch_hold (c : Ctx) (cli : XqCli) (stamp : Bytes) (h : HoldPair c.req cli)
+    (hs : stamp.head? ≠ some 32 ∧ stamp ≠ []) : HoldPair (xqVouch c cli stamp).req cli := by
+  obtain ⟨h1, h2⟩ := h
+  have hacc := setAccount_ne_nil stamp hs.1 hs.2
+  unfold xqVouch HoldPair
+  dsimp only
+  cases hb : cli.modeBang <;> cases he : c.req.account.isEmpty <;> cases hx : cli.modeX <;>
+    simp_all [updReq, Ctx.emit]
+
+/-! ### the gate and the verdicts do not touch the counted fields -/
+
+/-- the fields `HoldInv` talks about -/
+def SameHold (r r' : Req) : Prop :=
+  r'.holds = r.holds ∧ r'.soft = r.soft ∧ r'.account = r.account ∧ r'.xq = r.xq
+    ∧ r'.flags.timedOut = r.flags.timedOut
+
+theorem SameHold.inv {r r' : Req} (h : SameHold r r') (hi : HoldInv r) : HoldInv r' := by
+  obtain ⟨a, b', c, d, e⟩ := h
+  unfold HoldInv HoldPair at *
+  rw [d]
+  cases hx : r.xq with
+  | none => simp only [hx] at hi; simp only [a, b', e]; exact hi
+  | some cli => simp only [hx] at hi; simp only [a, b', c, e]; exact hi
+
+theorem gate_hold (st : Static) (c c' : Ctx) (h : gate st c = .ok c') :
+    c'.gone = true ∨ SameHold c.req c'.req := by
+  unfold gate at h
+  dsimp only at h
+  by_cases h1 : (c.req.holds == 0 && !c.req.flags.responded && st.need.subset c.req.flags) = true
+  · simp only [h1, if_true] at h
+    by_cases h2 : (c.req.soft == 0 || c.req.flags.timedOut) = true
+    · simp only [h2, if_true] at h
+      exact Or.inl (accept_spec st _ _ h).2
+    · simp only [h2, if_false, Bool.false_eq_true] at h
+      split at h <;> (simp only [pure, Except.pure, Except.ok.injEq] at h; subst h; right;
+                      simp [SameHold, softDone, updReq, Ctx.emit])
+  · simp only [h1, if_false, Bool.false_eq_true, pure, Except.pure, Except.ok.injEq] at h
+    subst h; right; simp [SameHold]
+
+/-- an outcome that either removes the request or keeps `HoldInv` -/
+def HoldOut (c' : Ctx) : Prop := c'.gone = true ∨ HoldInv c'.req
+
+theorem gate_holdOut (st : Static) (c c' : Ctx) (hi : HoldInv c.req) (h : gate st c = .ok c') : HoldOut c' := by
+  rcases gate_hold st c c' h with hg | hs
+  · exact Or.inl hg
+  · exact Or.inr (hs.inv hi)
+
+theorem xqFinish_holdOut (st : Static) (i : Nat) (c c' : Ctx) (cli : XqCli) (srv : Svc)
+    (hp : HoldPair c.req cli) (hi : cli.ref.contains i = true)
+    (h : xqFinish st i c cli srv = .ok c') : HoldOut c' := by
+  rw [xqFinish_eq] at h
+  exact gate_holdOut st _ _ (xqFinishPre_hold i c cli srv hp hi) h
+
+theorem maskAdd_contains_self (m : List Nat) (i : Nat) : (maskAdd m i).contains i = true := by
+  unfold maskAdd; split <;> simp_all
+
+theorem HoldPair.congr {r : Req} {cli cli' : XqCli} (h : HoldPair r cli)
+    (hb : cli'.modeBang = cli.modeBang) (hr : cli'.ref = cli.ref) : HoldPair r cli' := by
+  unfold HoldPair at *; rw [hb, hr]; exact h
+
+theorem xqReply_holdOut (st : Static) (c c' : Ctx) (svc : Bytes) (reply : Option Bytes)
+    (hi : HoldInv c.req) (h : xqReply st c svc reply = .ok c') : HoldOut c' := by
+  unfold xqReply at h
+  split at h
+  · simp only [pure, Except.pure, Except.ok.injEq] at h; subst h; exact Or.inr hi
+  · rename_i cli hx
+    have hp : HoldPair c.req cli := by unfold HoldInv at hi; simpa [hx] using hi
+    split at h
+    · simp only [pure, Except.pure, Except.ok.injEq] at h; subst h; exact Or.inr hi
+    · rename_i i srv hf
+      have hc := mem_of_findRefSlot hf
+      split at h
+      · dsimp only at h
+        split at h
+        · exact xqFinish_holdOut st i _ _ _ _ (show HoldPair (c.emit _).req cli from hp) hc h
+        · exact xqFinish_holdOut st i _ _ _ _ hp hc h
+      · split at h
+        · exact xqFinish_holdOut st i _ _ _ _ (hp.congr (cli' := { cli with ok := maskAdd cli.ok i }) rfl rfl) hc h
+        · rename_i stamp hok
+          dsimp only at h
+          split at h
+          · exact xqFinish_holdOut st i _ _ _ _
+              (xqVouch_hold c _ stamp (hp.congr (cli' := { cli with ok := maskAdd cli.ok i }) rfl rfl) (okStamp_some hok)) hc h
+          · exact xqFinish_holdOut st i _ _ _ _ (hp.congr (cli' := { cli with ok := maskAdd cli.ok i }) rfl rfl) hc h
+        · split at h
+          · exact Or.inl (kill_spec _ _ _ h).2
+          · split at h
+            · exact xqFinish_holdOut st i _ _ _ _ (show HoldPair (c.emit _).req cli from hp) hc h
+            · split at h
+              · exact xqFinish_holdOut st i _ _ _ _
+                  (show HoldPair (c.emit _).req { cli with more := maskAdd cli.more i } from hp.congr rfl rfl) hc h
+              · simp only [pure, Except.pure, Except.ok.injEq] at h; subst h; exact Or.inr hi
+
+theorem fieldChange_hold (st : Static) (p : Bool) (c : Ctx) (hi : HoldInv c.req) : HoldInv (fieldChange st p c).req := by
+  unfold fieldChange; split
+  · exact xqCheck_hold p c hi
+  · exact hi
+
+/-- updates of the data fields and of flags other than `timedOut` keep `HoldInv` -/
+theorem holdInv_congr {r r' : Req} (h : SameHold r r') (hi : HoldInv r) : HoldInv r' := h.inv hi
+
+theorem reqEvent_holdOut (st : Static) (hwf : st.wf) (c c' : Ctx) (ev : Ev) (hi : HoldInv c.req)
+    (hto : st.need.timedOut = false) (h : reqEvent st c ev = .ok c') : HoldOut c' := by
+  cases ev with
+  | hostname hn =>
+    simp only [reqEvent] at h
+    split at h
+    · simp only [pure, Except.pure, Except.ok.injEq] at h; subst h; exact Or.inr hi
+    · split at h
+      · cases h
+      · refine gate_holdOut st _ _ (fieldChange_hold st false _ ?_) h
+        exact holdInv_congr (by simp [SameHold, updReq]) hi
+  | noHostname =>
+    simp only [reqEvent] at h
+    refine gate_holdOut st _ _ (fieldChange_hold st false _ ?_) h
+    exact holdInv_congr (by simp [SameHold, updReq]) hi
+  | password p =>
+    simp only [reqEvent, bind, Except.bind] at h
+    have h0 : HoldInv (updReq c fun r => { r with flags := { r.flags with gotPass := true } }).req :=
+      holdInv_congr (by simp [SameHold, updReq]) hi
+    by_cases hx : st.hasXq = true
+    · simp only [hx, if_true] at h
+      split at h
+      · cases h
+      · rename_i c1 hc1
+        exact gate_holdOut st _ _ (xqPassword_hold _ _ _ h0 hc1) h
+    · simp only [hx, if_false, Bool.false_eq_true, pure, Except.pure] at h
+      exact gate_holdOut st _ _ h0 h
+  | userInfo u r =>
+    simp only [reqEvent] at h
+    refine gate_holdOut st _ _ (fieldChange_hold st false _ ?_) h
+    refine holdInv_congr ?_ hi
+    simp only [SameHold, updReq]
+    split <;> simp
+  | ident i =>
+    simp only [reqEvent] at h
+    refine gate_holdOut st _ _ (fieldChange_hold st false _ ?_) h
+    refine holdInv_congr ?_ hi
+    simp only [SameHold, updReq]
+    split
+    · simp
+    · split <;> simp
+  | nick n =>
+    simp only [reqEvent] at h
+    split at h
+    · cases h
+    · refine gate_holdOut st _ _ (fieldChange_hold st false _ ?_) h
+      exact holdInv_congr (by simp [SameHold, updReq]) hi
+  | hurry =>
+    simp only [reqEvent] at h
+    refine gate_holdOut st _ _ (fieldChange_hold st false _ ?_) h
+    exact holdInv_congr (by simp [SameHold, updReq, Flags.or, hto]) hi
+  | timeout =>
+    simp only [reqEvent] at h
+    refine gate_holdOut st _ _ ?_ h
+    -- after the expiry the soft-hold clause is vacuous
+    unfold HoldInv HoldPair at *
+    simp only [updReq]
+    cases hx : c.req.xq with
+    | none => simp only [hx] at hi; exact ⟨hi.1, by simp⟩
+    | some cli => simp only [hx] at hi; exact ⟨hi.1, by simp⟩
+
+/-- **C02 / C03 (model part).**  For a stored request the acceptance condition of the gate,
+    which is written in terms of the two counters, is exactly the condition in terms of
+    sets: no +! demand without an account stamp, every required flag present, and no
+    unanswered query unless the timeout expired. -/
+theorem gate_condition_iff (need : Flags) (r : Req) (cli : XqCli) (hx : r.xq = some cli) (hi : HoldInv r) :
+    (r.holds = 0 ∧ need.subset r.flags = true ∧ (r.soft = 0 ∨ r.flags.timedOut = true))
+    ↔ (¬ (cli.modeBang = true ∧ r.account = []) ∧ need.subset r.flags = true
+        ∧ (cli.ref = [] ∨ r.flags.timedOut = true)) := by
+  unfold HoldInv at hi
+  simp only [hx, HoldPair] at hi
+  obtain ⟨h1, h2⟩ := hi
+  constructor
+  · rintro ⟨a, b', c⟩
+    refine ⟨?_, b', ?_⟩
+    · rintro ⟨hb, ha⟩
+      simp [hb, ha] at h1
+      omega
+    · rcases c with c | c
+      · by_cases ht : r.flags.timedOut = true
+        · exact Or.inr ht
+        · have := h2 (by simpa using ht)
+          left
+          by_cases he : cli.ref.isEmpty = true
+          · simpa using he
+          · simp [he] at this; omega
+      · exact Or.inr c
+  · rintro ⟨a, b', c⟩
+    refine ⟨?_, b', ?_⟩
+    · by_cases hb : (cli.modeBang && r.account.isEmpty) = true
+      · exfalso; apply a
+        simp only [Bool.and_eq_true, List.isEmpty_iff] at hb
+        exact hb
+      · simp [hb] at h1; simpa [hb] using h1
+    · rcases c with c | c
+      · by_cases ht : r.flags.timedOut = true
+        · exact Or.inr ht
+        · left; have := h2 (by simpa using ht); simpa [c] using this
+      · exact Or.inr c
+
+/-! ### every stored request keeps its counters in step, over whole histories -/
+
+def HInv (s : State) : Prop := ∀ r ∈ s.reqs, HoldInv r
+
+theorem withReq_pred {P : Req → Prop} {s s' : State} {r : Req} {f : Ctx → M Ctx} {out : List Bytes}
+    (hall : ∀ x ∈ s.reqs, P x) (hf : ∀ c', f (ctx0 s r) = .ok c' → c'.gone = true ∨ P c'.req)
+    (h : withReq s r f = .ok (s', out)) : ∀ x ∈ s'.reqs, P x := by
+  rw [withReq_eq] at h
+  cases hx : f (ctx0 s r) with
+  | error e => simp [hx, Except.map] at h
+  | ok c =>
+    simp only [hx, Except.map, Except.ok.injEq, Prod.mk.injEq] at h
+    obtain ⟨rfl, _⟩ := h
+    intro x hx'
+    dsimp only at hx'
+    split at hx'
+    · exact hall x (mem_removeReq hx')
+    · rename_i hg
+      rcases mem_putReq hx' with rfl | hm
+      · rcases hf c hx with hgone | hp
+        · exact absurd hgone hg
+        · exact hp
+      · exact hall x hm
+
+theorem need_timedOut (s : State) : s.static.need.timedOut = false := by
+  simp only [State.static, State.need]; split <;> rfl
+
+theorem onReq_hold {s s' : State} {req? : Option Req} {c : String} {ev : Ev} {out : List Bytes} (hi : Inv s) (hh : HInv s)
+    (hreq : ∀ r, req? = some r → r ∈ s.reqs) (h : onReq s req? c ev = .ok (s', out)) : HInv s' := by
+  unfold onReq at h
+  cases req? with
+  | none => simp only [garbage, pure, Except.pure, Except.ok.injEq, Prod.mk.injEq] at h; obtain ⟨rfl, _⟩ := h; exact hh
+  | some r =>
+    exact withReq_pred hh (fun c' hc =>
+      reqEvent_holdOut _ (static_wf s hi.deps) _ _ _ (hh r (hreq r rfl)) (need_timedOut s) hc) h
+
+theorem dropReq_hold {s s' : State} {req? : Option Req} {c : String} {out : List Bytes} (hh : HInv s)
+    (h : dropReq s req? c = .ok (s', out)) : HInv s' := by
+  unfold dropReq at h
+  cases req? with
+  | none => simp only [garbage, pure, Except.pure, Except.ok.injEq, Prod.mk.injEq] at h; obtain ⟨rfl, _⟩ := h; exact hh
+  | some r =>
+    exact withReq_pred (f := fun ctx => pure (finishReq ctx)) hh (fun c' hc => by
+      simp only [pure, Except.pure, Except.ok.injEq] at hc; subst hc; exact Or.inl rfl) h
+
+theorem onReply_hold {s s' : State} {l : Line} {isX : Bool} {out : List Bytes} (hh : HInv s)
+    (h : onReply s l isX = .ok (s', out)) : HInv s' := by
+  unfold onReply at h
+  split at h
+  · simp only [pure, Except.pure, Except.ok.injEq, Prod.mk.injEq] at h; obtain ⟨rfl, _⟩ := h; exact hh
+  · split at h
+    · simp only [pure, Except.pure, Except.ok.injEq, Prod.mk.injEq] at h; obtain ⟨rfl, _⟩ := h; exact hh
+    · rename_i r hv
+      exact withReq_pred hh (fun c' hc => xqReply_holdOut _ _ _ _ _ (hh r (validateRequest_mem hv)) hc) h
+
+theorem newClient_hold {s s' : State} {id : Int} {a p : Bytes} {out : List Bytes} (hi : Inv s) (hh : HInv s)
+    (h : newClient s id a p = .ok (s', out)) : HInv s' := by
+  unfold newClient at h
+  cases hp : ptonC a false with
+  | error e => simp [hp, bind, Except.bind] at h
+  | ok r =>
+    simp only [hp, bind, Except.bind, pure, Except.pure, Except.ok.injEq, Prod.mk.injEq] at h
+    obtain ⟨rfl, _⟩ := h
+    intro x hx
+    rcases (ids_insertReq _ _ hi.sorted).2 x hx with rfl | hm
+    · split <;> simp [HoldInv, HoldPair]
+    · exact hh x hm
+
+theorem pure_hold {s s' : State} {out o : List Bytes} (hh : HInv s)
+    (h : (pure (s, o) : M (State × List Bytes)) = .ok (s', out)) : HInv s' := by
+  simp only [pure, Except.pure, Except.ok.injEq, Prod.mk.injEq] at h
+  obtain ⟨rfl, _⟩ := h; exact hh
+
+theorem dispatch_hold {s s' : State} {l : Line} {cmd : UInt8} {req? : Option Req} {out : List Bytes}
+    (hi : Inv s) (hh : HInv s) (hreq : ∀ r, req? = some r → r ∈ s.reqs)
+    (h : dispatch s l cmd req? = .ok (s', out)) : HInv s' := by
+  unfold dispatch at h
+  dsimp only at h
+  by_cases c1 : (cmd == 67) = true
+  · rw [if_pos c1] at h
+    by_cases a : l.argv.length < 5
+    · rw [if_pos a] at h; exact pure_hold hh h
+    · rw [if_neg a] at h; exact newClient_hold hi hh h
+  rw [if_neg c1] at h
+  by_cases c2 : (cmd == 68) = true
+  · rw [if_pos c2] at h; exact dropReq_hold hh h
+  rw [if_neg c2] at h
+  by_cases c3 : (cmd == 78) = true
+  · rw [if_pos c3] at h
+    by_cases a : (req?.isSome && decide (l.argv.length < 2)) = true
+    · rw [if_pos a] at h; exact pure_hold hh h
+    · rw [if_neg a] at h; exact onReq_hold hi hh hreq h
+  rw [if_neg c3] at h
+  by_cases c4 : (cmd == 100) = true
+  · rw [if_pos c4] at h; exact onReq_hold hi hh hreq h
+  rw [if_neg c4] at h
+  by_cases c5 : (cmd == 80) = true
+  · rw [if_pos c5] at h
+    by_cases a : (req?.isSome && decide (l.argv.length < 2)) = true
+    · rw [if_pos a] at h; exact pure_hold hh h
+    · rw [if_neg a] at h; exact onReq_hold hi hh hreq h
+  rw [if_neg c5] at h
+  by_cases c6 : (cmd == 85) = true
+  · rw [if_pos c6] at h
+    cases req? with
+    | none => exact pure_hold hh h
+    | some r =>
+      dsimp only at h
+      by_cases a : l.argv.length < 3
+      · rw [if_pos a] at h; exact pure_hold hh h
+      · rw [if_neg a] at h
+        exact withReq_pred hh (fun c' hc =>
+          reqEvent_holdOut _ (static_wf s hi.deps) _ _ _ (hh r (hreq r rfl)) (need_timedOut s) hc) h
+  rw [if_neg c6] at h
+  by_cases c7 : (cmd == 117) = true
+  · rw [if_pos c7] at h; exact onReq_hold hi hh hreq h
+  rw [if_neg c7] at h
+  by_cases c8 : (cmd == 110) = true
+  · rw [if_pos c8] at h
+    by_cases a : (req?.isSome && decide (l.argv.length < 2)) = true
+    · rw [if_pos a] at h; exact pure_hold hh h
+    · rw [if_neg a] at h; exact onReq_hold hi hh hreq h
+  rw [if_neg c8] at h
+  by_cases c9 : (cmd == 72) = true
+  · rw [if_pos c9] at h; exact onReq_hold hi hh hreq h
+  rw [if_neg c9] at h
+  by_cases c10 : (cmd == 84) = true
+  · rw [if_pos c10] at h; exact dropReq_hold hh h
+  rw [if_neg c10] at h
+  by_cases c11 : (cmd == 88) = true
+  · rw [if_pos c11] at h; exact onReply_hold hh h
+  rw [if_neg c11] at h
+  by_cases c12 : (cmd == 120) = true
+  · rw [if_pos c12] at h; exact onReply_hold hh h
+  rw [if_neg c12] at h
+  by_cases c13 : (cmd == 63) = true
+  · rw [if_pos c13] at h
+    obtain ⟨o, ho⟩ := onInfo_spec s l
+    rw [ho] at h
+    simp only [Except.ok.injEq, Prod.mk.injEq] at h; obtain ⟨rfl, _⟩ := h; exact hh
+  rw [if_neg c13] at h; exact pure_hold hh h
+
+theorem stepLine_hold {s s' : State} {raw : Bytes} {out : List Bytes} (hi : Inv s) (hh : HInv s)
+    (h : stepLine s raw = .ok (s', out)) : HInv s' := by
+  unfold stepLine at h
+  dsimp only at h
+  split at h
+  · exact pure_hold hh h
+  · split at h
+    · split at h
+      · exact pure_hold hh h
+      · exact dispatch_hold hi hh (fun r hr => by cases hr) h
+    · split at h
+      · exact pure_hold hh h
+      · exact dispatch_hold hi hh (fun r hr => (findReq_mem hr).1) h
+
+theorem stepLines_hold (lines : List Bytes) {s s' : State} {out : List Bytes} (hi : Inv s) (hh : HInv s)
+    (h : stepLines s lines = .ok (s', out)) : HInv s' := by
+  induction lines generalizing s out with
+  | nil => exact pure_hold hh h
+  | cons ln rest ih =>
+    unfold stepLines at h
+    split at h
+    · exact ih hi hh h
+    · simp only [bind, Except.bind] at h
+      split at h
+      · cases h
+      · rename_i v1 h1
+        obtain ⟨s1, o1⟩ := v1
+        dsimp only at h
+        split at h
+        · cases h
+        · rename_i v2 h2
+          obtain ⟨s2, o2⟩ := v2
+          simp only [pure, Except.pure, Except.ok.injEq, Prod.mk.injEq] at h
+          obtain ⟨rfl, _⟩ := h
+          exact ih (stepLine_inv hi h1).1 (stepLine_hold hi hh h1) h2
+
+theorem stepOp_hold {s s' : State} {op : Op} {out : List Bytes} (hi : Inv s) (hh : HInv s)
+    (h : stepOp s op = .ok (s', out)) : HInv s' := by
+  cases op with
+  | chunk bs =>
+    simp only [stepOp, stepChunk] at h
+    exact stepLines_hold _ (inv_inbuf hi _) (by exact hh) h
+  | timeout id =>
+    simp only [stepOp] at h
+    cases hr : stepTimeout s id with
+    | error e => simp [hr, Except.map] at h
+    | ok r =>
+      obtain ⟨s1, o1, f1⟩ := r
+      simp only [hr, Except.map, Except.ok.injEq, Prod.mk.injEq] at h
+      obtain ⟨rfl, _⟩ := h
+      unfold stepTimeout at hr
+      split at hr
+      · rename_i rq hf
+        split at hr
+        · simp only [bind, Except.bind] at hr
+          split at hr
+          · cases hr
+          · rename_i v hv
+            obtain ⟨s2, o2⟩ := v
+            simp only [pure, Except.pure, Except.ok.injEq, Prod.mk.injEq] at hr
+            obtain ⟨rfl, _, _⟩ := hr
+            exact withReq_pred hh (fun c' hc =>
+              reqEvent_holdOut _ (static_wf s hi.deps) _ _ _ (hh rq (findReq_mem hf).1) (need_timedOut s) hc) hv
+        · simp only [pure, Except.pure, Except.ok.injEq, Prod.mk.injEq] at hr
+          obtain ⟨rfl, _⟩ := hr; exact hh
+      · simp only [pure, Except.pure, Except.ok.injEq, Prod.mk.injEq] at hr
+        obtain ⟨rfl, _⟩ := hr; exact hh
+
+/-- **C02 / C03 over whole histories**: in every reachable state every stored request has
+    `holds` and `soft_holds` equal to what the sets say. -/
+theorem runOps_hold (ops : List Op) (s : State) (hi : Inv s) (hh : HInv s) (s' : State) (outs : List (List Bytes))
+    (h : runOps s ops = .ok (s', outs)) : HInv s' := by
+  induction ops generalizing s outs with
+  | nil => simp only [runOps, pure, Except.pure, Except.ok.injEq, Prod.mk.injEq] at h; obtain ⟨rfl, _⟩ := h; exact hh
+  | cons op ops ih =>
+    simp only [runOps, bind, Except.bind] at h
+    split at h
+    · cases h
+    · rename_i v1 h1
+      obtain ⟨s1, o1⟩ := v1
+      dsimp only at h
+      split at h
+      · cases h
+      · rename_i v2 h2
+        obtain ⟨s2, os⟩ := v2
+        simp only [pure, Except.pure, Except.ok.injEq, Prod.mk.injEq] at h
+        obtain ⟨rfl, _⟩ := h
+        exact ih s1 (stepOp_inv hi h1).1 (stepOp_hold hi hh h1) os h2
+
 end Iauthd.Proto
